@@ -51,6 +51,7 @@ type Contract struct {
 	Strict    []string // package paths: calls into them must have a contract
 	Split     []string // interface parameters whose dynamic type is case-split in postcondition obligations
 	Expand    []string // callee names whose contract is ignored in this unit (body inlined instead)
+	NoContract []string // callee names whose contract is ignored in this unit (call is fully havocked)
 	NoInline  []string // callee names never inlined in this unit
 	Witness   string
 	Havoc     []string // callees whose call is treated as result-only havoc
@@ -79,7 +80,20 @@ type GlobalInv struct {
 	Text string
 }
 
+// Scan is a syntactic (SSA scan) obligation: e.g. the fields of a struct invariant are written only by
+// the listed functions.
+type Scan struct {
+	Pkg     string
+	Kind    string // fieldwriters | globalwriters
+	Target  string // Type.field or global name
+	Allowed []string
+	Props   []string
+	Label   string
+	Pos     string
+}
+
 type ContractSet struct {
+	Scans   []*Scan
 	Funcs   map[string]*Contract // key: pkgpath + "." + FuncName
 	Order   []string
 	Specs   map[string]*SpecFn
@@ -233,7 +247,7 @@ var clauseKeywords = map[string]bool{
 	"func": true, "props": true, "ghostensures": true, "case": true, "assume": true, "carve": true, "caseall": true, "mode": true, "requires": true, "ensures": true, "invariant": true,
 	"modifies": true, "safety": true, "overflow": true, "inline": true, "trusted": true, "dispatch": true,
 	"let": true, "spec": true, "external": true, "uf": true, "params": true, "results": true,
-	"global": true, "noinline": true, "expand": true, "split": true, "strictpkgs": true, "modcomps": true, "axiom": true, "uses": true, "witness": true, "havoc": true, "inlineall": true, "unroll": true,
+	"global": true, "noinline": true, "nocontract": true, "expand": true, "split": true, "strictpkgs": true, "modcomps": true, "axiom": true, "uses": true, "scan": true, "witness": true, "havoc": true, "inlineall": true, "unroll": true,
 }
 
 // parseContractSource extracts the //@ lines of one file.
@@ -337,6 +351,21 @@ func (cs *ContractSet) parseContractSource(pkgPath, filename string, src []byte)
 				continue
 			}
 			cs.Globals = append(cs.Globals, &GlobalInv{Pkg: pkgPath, Expr: e, Text: pp})
+		case "scan":
+			// scan[label] <props> fieldwriters Type.field: f1 f2 ...
+			colon := strings.Index(rest, ":")
+			if colon < 0 {
+				bad(fmt.Errorf("scan needs ':'"))
+				continue
+			}
+			head := strings.Fields(rest[:colon])
+			if len(head) < 3 {
+				bad(fmt.Errorf("scan: props kind target: allowed..."))
+				continue
+			}
+			sc := &Scan{Pkg: pkgPath, Label: label, Pos: pos, Kind: head[len(head)-2], Target: head[len(head)-1], Props: strings.Split(head[0], ","),
+				Allowed: strings.Fields(strings.ReplaceAll(rest[colon+1:], ",", " "))}
+			cs.Scans = append(cs.Scans, sc)
 		case "axiom":
 			// axiom name: expr
 			colon := strings.Index(rest, ":")
@@ -441,6 +470,9 @@ func (cs *ContractSet) parseContractSource(pkgPath, filename string, src []byte)
 				cur.Split = append(cur.Split, strings.Fields(strings.ReplaceAll(rest, ",", " "))...)
 			case "expand":
 				cur.Expand = append(cur.Expand, strings.Fields(strings.ReplaceAll(rest, ",", " "))...)
+			case "nocontract":
+				cur.NoContract = append(cur.NoContract, strings.Fields(strings.ReplaceAll(rest, ",", " "))...)
+				cur.NoInline = append(cur.NoInline, strings.Fields(strings.ReplaceAll(rest, ",", " "))...)
 			case "noinline":
 				cur.NoInline = append(cur.NoInline, strings.Fields(strings.ReplaceAll(rest, ",", " "))...)
 			case "havoc":
